@@ -145,10 +145,17 @@ def plan(tier, seed):
         jobs.append({'space': 'S6c', 'period': p, 'weight': 2 ** p * 3000})
     for i in range(16):
         jobs.append({'space': 'S8', 'shard': i, 'of': 16, 'weight': 4000})
-    for i in range(len(S9_PAIRS)):
+    n9 = len(S9_PAIRS) if tier == 'quick' else len(S9_PAIRS + S9_MORE)
+    for i in range(n9):
         for first in 'AB':
             jobs.append({'space': 'S9', 'pair': i, 'first': first,
-                         'weight': 6000})
+                         'mode': 'full', 'bound': 1, 'weight': 6000})
+    if tier != 'quick':
+        # two preemptions: the parse alone, on the shortest texts
+        for i in range(len(S9_TINY)):
+            for first in 'AB':
+                jobs.append({'space': 'S9', 'pair': i, 'first': first,
+                             'mode': 'parse', 'bound': 2, 'weight': 60000})
     for n in range(1, b.get('s7', 7) + 1):
         for fam in range(len(LEAF_FAMILIES)):
             jobs.append({'space': 'S7', 'len': n, 'family': fam,
@@ -265,9 +272,23 @@ S9_PAIRS = [
 ]
 
 
+S9_MORE = [
+    ('role:a', 'not role:a'),
+    ('@ or role:c', '! and role:b'),
+    ('(((role:a)))', 'not (not (role:b))'),
+    ([['role:b'], ['role:a', 'role:c']], [['role:a'], 'role:b']),
+    ('role:a and role:c and role:a', 'role:b or role:b or role:c'),
+    ('not role:c or role:a', 'role:b and not role:a'),
+]
+S9_TINY = [('role:a', 'not role:b'), ('@', [['role:b']]),
+           ('role:a or role:c', 'role:b and role:b')]
+
+
 def run_S9(cx, job):
     from mc import pairs
-    ta, tb = S9_PAIRS[job['pair']]
+    if job.get('mode') == 'parse':
+        return run_S9_parse(cx, job)
+    ta, tb = (S9_PAIRS + S9_MORE)[job['pair']]
     roles = {'A': ['a', 'c'], 'B': ['b']}
     texts = {'A': ta, 'B': tb}
     P, parse = cx.policy, cx.parse_rule
@@ -294,11 +315,37 @@ def run_S9(cx, job):
     def make_bodies():
         return {n: (lambda n=n: decide_all(texts[n], roles[n])) for n in 'AB'}
     n_ex = pairs.explore(cx.acc, 'S9', 'pair%d' % job['pair'], make_bodies,
-                         expected, 1 if job.get('tier') == 'quick' else 2,
+                         expected, job.get('bound', 1),
                          lambda n: 'rule %r' % (texts[n],),
                          firsts=(job['first'],))
     cx.acc.add('s9_executions', n_ex)
     cx.acc.sample('S9', {'rules': [str(ta), str(tb)]})
+
+
+def run_S9_parse(cx, job):
+    """Only the parse is shared work here, so two preemptions are affordable:
+    each thread parses its text and evaluates the tree it got, twice."""
+    from mc import pairs
+    ta, tb = S9_TINY[job['pair']]
+    roles = {'A': ['a', 'c'], 'B': ['b']}
+    texts = {'A': ta, 'B': tb}
+    parse = cx.parse_rule
+    enf = world.bare_enforcer()
+
+    def body(text, held):
+        tree = parse(text)
+        return (str(tree), bool(tree({}, {'roles': held}, enf)),
+                bool(tree({}, {'roles': []}, enf)))
+    expected = {n: body(texts[n], roles[n]) for n in 'AB'}
+
+    def make_bodies():
+        return {n: (lambda n=n: body(texts[n], roles[n])) for n in 'AB'}
+    n_ex = pairs.explore(cx.acc, 'S9', 'tiny%d' % job['pair'], make_bodies,
+                         expected, job['bound'],
+                         lambda n: 'rule %r' % (texts[n],),
+                         firsts=(job['first'],))
+    cx.acc.add('s9_executions_two_preemptions', n_ex)
+    cx.acc.sample('S9', {'rules': [str(ta), str(tb)], 'bound': 2})
 
 
 # S8: rules are parsed one after the other by one process - each on its own.
